@@ -354,3 +354,15 @@ Theorem load_bytes_history_classic rel h L :
   exists c, load_bytes rel (render_history_classic h L) = Loaded c (latest_root h) /\
             forall id, ctx_get c id = option_map VObj (resolve_h h id).
 Proof. intros Wh Wl. exact (load_bytes_history rel h L None Wh Wl eq_refl). Qed.
+
+Theorem load_bytes_prev_cycle rel h L t :
+  wf_history h -> wf_layouts_p (Some t) h L ->
+  In t (List.map (fun q => N.of_nat (q_s q)) (place (len (hhead L)) (Some t) h (hl_revs L))) ->
+  load_bytes rel (render_history_classic h L) = Rejected.
+Proof. intros Wh Wl Ht. exact (load_bytes_prev_dangling rel h L (Some t) Wh Wl t eq_refl (or_introl Ht)). Qed.
+
+Theorem load_bytes_prev_oob rel h L t :
+  wf_history h -> wf_layouts_p (Some t) h L ->
+  (N.of_nat (len (render_history_view h L)) <= t)%N ->
+  load_bytes rel (render_history_classic h L) = Rejected.
+Proof. intros Wh Wl Ht. exact (load_bytes_prev_dangling rel h L (Some t) Wh Wl t eq_refl (or_intror Ht)). Qed.
